@@ -617,8 +617,8 @@ def scenarios():
     add("deps-style-makefile-to-ignoring", setup=lambda c: S(c, 0, deps=[b"c1.d"], ds=1), edit=lambda c: S(c, 0, ds=3), expect=["C1"])
     add("move-input-to-outputs", setup=lambda c: S(c, 0, inputs=[b"src.txt", b"aux.txt"]),
         edit=lambda c: S(c, 0, inputs=[b"src.txt"], outputs=[b"aux.txt", b"mid.txt"]), expect=["C1"])
-    add("move-args-tail-to-env", setup=lambda c: S(c, 0, args=c1args + [b"K", b"V"]),
-        edit=lambda c: S(c, 0, args=c1args, env=[(b"A", b"1"), (b"K", b"V")]), expect=["C1"])
+    add("move-args-tail-to-env", setup=lambda c: S(c, 0, args=c1args + [b"K", b"V"], env=[]),
+        edit=lambda c: S(c, 0, args=c1args, env=[(b"K", b"V")]), expect=["C1"])
     add("deps-style-makefile-to-dependency-info", setup=lambda c: S(c, 0, deps=[b"c1.d"], ds=1), edit=lambda c: S(c, 0, ds=2),
         action=lambda sb: open(os.path.join(sb, "use-di"), "w").close(), expect=["C1"])
     add("args-append", edit=lambda c: S(c, 0, args=c1args + [b"x"]), expect=["C1"])
@@ -633,8 +633,8 @@ def scenarios():
     add("flag-allow-missing-inputs", edit=lambda c: S(c, 0, ami=True), expect=["C1"])
     add("flag-allow-modified-outputs", edit=lambda c: S(c, 0, amo=True), expect=["C1"])
     add("flag-always-out-of-date", edit=lambda c: S(c, 2, aood=True), expect=["C3"], then=["C3"])
-    add("flag-inherit-env", edit=lambda c: S(c, 0, ie=False), expect=["C1"])
-    add("flag-can-safely-interrupt", edit=lambda c: S(c, 0, csi=False), expect=["C1"])
+    add("flag-inherit-env", edit=lambda c: S(c, 0, ie=not c[0]["ie"]), expect=["C1"])
+    add("flag-can-safely-interrupt", edit=lambda c: S(c, 0, csi=not c[0]["csi"]), expect=["C1"])
     add("deps-add-path", setup=lambda c: S(c, 0, deps=[b"c1.d"], ds=1), edit=lambda c: S(c, 0, deps=[b"c1.d", b"c1b.d"]), expect=["C1"])
     add("deps-introduce", edit=lambda c: S(c, 0, deps=[b"c1.d"], ds=1), expect=["C1"])
     add("signature-add", edit=lambda c: S(c, 0, sigdata=b"s1"), expect=["C1"])
@@ -681,6 +681,7 @@ def run_cli(chk, base):
                 for d in cmds0:
                     d["env"] = d["env"] + [(b"Z%d" % k, rnd_bytes(rng).replace(b"\0", b"")) for k in range(rng.randint(0, 2))]
                     d["csi"] = rng.random() < 0.5
+                    d["ie"] = rng.random() < 0.7
                     d["order"] = rng.randrange(1 << 20)
                     d["explicit_defaults"] = rng.random() < 0.5
             if sc["setup"]:
